@@ -180,3 +180,19 @@ def positional_call_arguments(ename, case, fail, obs):
         name = fail[2][len("keyword "):].split("=", 1)[0]
         return name in [n for n, _e in case["old_kw"][:case["npos"]]]
     return False
+
+
+def trim_only_run_stops_early(ename, case, fail, obs):
+    """KF-C09-1: a run that approves trim but none of create / fix / update does not make failing comparisons succeed, so a
+    test with plain asserts stops at the first failing one; what the remaining statements would have used (members, keys,
+    a tighter bound) counts as unused and is trimmed.  Approving trim in such a run therefore gives another program than
+    approving it together with (or after) the categories that repair the failing comparison."""
+    if ename != "abort" or fail[0] != "C09" or fail[1] != "order_independent":
+        return False
+    import ast as _ast
+    try:
+        steps = _ast.literal_eval(fail[2].rsplit("[steps: ", 1)[1][:-1])
+    except Exception:  # noqa: BLE001
+        return False
+    stopped = {c for c, r in steps if r == "AssertionError"}
+    return stopped == {"trim"}
